@@ -18,10 +18,15 @@
 EXTENDS NumTheory, TLC
 
 (* ---- modular exponentiation (square and multiply, the builtin pow) ------------------------- *)
+(* a * b mod m without leaving TLC's 32-bit integers: directly below 2^15.5, by doubling and adding up to m < 2^30 *)
+RECURSIVE MulModSlow(_, _, _)
+MulModSlow(a, b, m) == IF b = 0 THEN 0
+                       ELSE LET h == MulModSlow((2 * a) % m, b \div 2, m) IN IF b % 2 = 1 THEN (h + a) % m ELSE h
+MulMod(a, b, m) == IF m <= 46340 THEN (a * b) % m ELSE MulModSlow(a % m, b % m, m)
 RECURSIVE PowMod(_, _, _)
 PowMod(b, e, m) == IF e = 0 THEN 1 % m
-                   ELSE LET h == PowMod(b, e \div 2, m) hh == (h * h) % m
-                        IN  IF e % 2 = 1 THEN (hh * (b % m)) % m ELSE hh
+                   ELSE LET h == PowMod(b, e \div 2, m) hh == MulMod(h, h, m)
+                        IN  IF e % 2 = 1 THEN MulMod(hh, b % m, m) ELSE hh
 
 (* ---- jacobi(a, n) --------------------------------------------------------------------------- *)
 RECURSIVE StripTwos(_, _)
@@ -93,6 +98,48 @@ InvLoop(lm, low, hm, high) ==
   IF low <= 1 THEN lm
   ELSE LET r == high \div low IN InvLoop(hm - lm * r, high - low * r, lm, low)
 InverseAlg(a, m) == IF a = 0 THEN 0 ELSE InvLoop(1, a % m, 0, m) % m
+
+(* ---- is_prime: table below 1229, screening by 2 3 5 7 11, Miller-Rabin with the first t primes as bases (t = 40 below 100 bits) *)
+LastSmall == 1229
+MRBases == <<2, 3, 5, 7, 11, 13, 17, 19, 23, 29, 31, 37, 41, 43, 47, 53, 59, 61, 67, 71, 73, 79, 83, 89, 97, 101, 103, 107, 109, 113,
+             127, 131, 137, 139, 149, 151, 157, 163, 167, 173>>
+RECURSIVE MRSquare(_, _, _, _)
+(* the inner loop for one base: y = a^r already computed, j counts 1..s-1; TRUE = "composite" *)
+MRSquare(y, j, s, n) ==
+  IF j <= s - 1 /\ y # n - 1
+  THEN LET y2 == MulMod(y, y, n) IN IF y2 = 1 THEN TRUE ELSE MRSquare(y2, j + 1, s, n)
+  ELSE y # n - 1
+MRWitness(a, r, s, n) == LET y == PowMod(a, r, n) IN IF y # 1 /\ y # n - 1 THEN MRSquare(y, 1, s, n) ELSE FALSE
+IsPrimeAlg(n) ==
+  IF n <= LastSmall THEN IsPrime(n)                      \* "n in smallprimes": the table is the primes up to 1229
+  ELSE IF \E q \in {2, 3, 5, 7, 11} : n % q = 0 THEN FALSE           \* gcd(n, 2*3*5*7*11) # 1
+  ELSE LET st == StripTwos(n - 1, 0) IN
+       \A i \in 1..Len(MRBases) : ~MRWitness(MRBases[i], st[1], st[2], n)
+RECURSIVE NextPrimeFrom(_)
+NextPrimeFrom(v) == IF IsPrimeAlg(v) THEN v ELSE NextPrimeFrom(v + 2)
+NextPrimeAlg(v) == IF v < 2 THEN 2 ELSE NextPrimeFrom(IF (v + 1) % 2 = 1 THEN v + 1 ELSE v + 2)      \* (v + 1) | 1
+
+(* ---- factorization: divide out the table primes, then "search stupidly" through odd d from 1229 + 2 ----------------- *)
+RECURSIVE DivOut(_, _, _)
+DivOut(v, d, cnt) == IF v % d = 0 THEN DivOut(v \div d, d, cnt + 1) ELSE <<v, cnt>>
+RECURSIVE SmallPhase(_, _, _)
+SmallPhase(v, d, acc) ==
+  IF d > LastSmall \/ d > v THEN <<v, acc>>
+  ELSE IF v % d = 0 /\ IsPrime(d)
+       THEN LET r == DivOut(v, d, 0) IN SmallPhase(r[1], d + 1, Append(acc, <<d, r[2]>>))
+       ELSE SmallPhase(v, d + 1, acc)
+RECURSIVE StupidPhase(_, _, _)
+StupidPhase(v, d0, acc) ==
+  LET d == d0 + 2 IN
+  IF v \div d < d THEN (IF v > 1 THEN Append(acc, <<v, 1>>) ELSE acc)
+  ELSE IF v % d = 0 THEN LET r == DivOut(v, d, 0) IN StupidPhase(r[1], d, Append(acc, <<d, r[2]>>))
+  ELSE StupidPhase(v, d, acc)
+FactorAlg(n) ==
+  IF n < 2 THEN <<>>
+  ELSE LET sp == SmallPhase(n, 2, <<>>) IN
+       IF sp[1] > LastSmall
+       THEN (IF IsPrimeAlg(sp[1]) THEN Append(sp[2], <<sp[1], 1>>) ELSE StupidPhase(sp[1], LastSmall, sp[2]))
+       ELSE sp[2]
 
 (* ---- deprecated helpers ---------------------------------------------------------------------- *)
 PhiDef(n) == Cardinality({k \in 1..n : GcdDef(<<k, n>>) = 1})
